@@ -7,7 +7,10 @@
 (* channel setup, sends numbered packages to channels, and may address a channel that does not       *)
 (* exist; the reader goroutine routes every packet by the channel id of its header.                  *)
 EXTENDS Integers, Sequences, FiniteSets, TLC
-CONSTANTS Creators, MaxPkgs, ATOMIC, PTRACK, REGFIRST
+CONSTANTS Creators, MaxPkgs, ATOMIC, PTRACK, REGFIRST, CHANNELNR, MaxSends
+\* CHANNELNR = TRUE is the code: every channel numbers its outgoing packets itself (modulo 256); FALSE is the
+\* variant with one counter for the whole connection, where the numbers a channel uses are no longer consecutive
+\* as soon as two channels send.
 \* REGFIRST = TRUE is the code: NewChannel registers the channel in Conn.tdsChannels and then writes the setup
 \* packet; FALSE is the variant that writes the setup packet first - the reader goroutine can then route the
 \* server's acknowledgement before the channel exists (a connection error, the creator waits for ever).
@@ -24,8 +27,10 @@ VARIABLES closedCh,     \* ids of channels that were closed (Channel.Close remov
           got,          \* per channel id: values received, in order
           sentTo,       \* per channel id: values the peer sent, in order
           connErr, nsent, result,
-          strayAck      \* acknowledgements the reader could not deliver to a registered channel
-vars == <<closedCh, counter, chans, pc, cid, wire, ackq, inflight, got, sentTo, connErr, nsent, result, strayAck>>
+          strayAck,     \* acknowledgements the reader could not deliver to a registered channel
+          txnr,         \* next packet number: per channel id, and (index -1) for the connection-wide variant
+          outw          \* per channel id: the packet numbers the peer saw on that channel, in order
+vars == <<closedCh, counter, chans, pc, cid, wire, ackq, inflight, got, sentTo, connErr, nsent, result, strayAck, txnr, outw>>
 Ids == 0..(Cardinality(Creators) + 2)
 
 Init == /\ closedCh = {} /\ counter = 1 /\ chans = {0}                    \* channel 0 exists (login channel)
@@ -33,43 +38,44 @@ Init == /\ closedCh = {} /\ counter = 1 /\ chans = {0}                    \* cha
         /\ wire = <<>> /\ ackq = [i \in Ids |-> 0] /\ inflight = [i \in Ids |-> <<>>]
         /\ got = [i \in Ids |-> <<>>] /\ sentTo = [i \in Ids |-> <<>>]
         /\ connErr = 0 /\ nsent = 0 /\ result = [c \in Creators |-> "none"] /\ strayAck = 0
+        /\ txnr = [i \in Ids \cup {-1} |-> 0] /\ outw = [i \in Ids |-> <<>>]
 
 \* ---- NewChannel, creator c
 ReadId(c) == /\ pc[c] = "start"
              /\ IF ATOMIC THEN /\ cid' = [cid EXCEPT ![c] = counter] /\ counter' = counter + 1
                                /\ pc' = [pc EXCEPT ![c] = "lookup"]
                 ELSE /\ cid' = [cid EXCEPT ![c] = counter] /\ pc' = [pc EXCEPT ![c] = "incr"] /\ UNCHANGED counter
-             /\ UNCHANGED <<closedCh, chans, wire, ackq, inflight, got, sentTo, connErr, nsent, result, strayAck>>
+             /\ UNCHANGED <<closedCh, chans, wire, ackq, inflight, got, sentTo, connErr, nsent, result, strayAck, txnr, outw>>
 Incr(c) == /\ pc[c] = "incr" /\ counter' = counter + 1 /\ pc' = [pc EXCEPT ![c] = "lookup"]
-           /\ UNCHANGED <<closedCh, chans, cid, wire, ackq, inflight, got, sentTo, connErr, nsent, result, strayAck>>
+           /\ UNCHANGED <<closedCh, chans, cid, wire, ackq, inflight, got, sentTo, connErr, nsent, result, strayAck, txnr, outw>>
 Lookup(c) == /\ pc[c] = "lookup"
              /\ pc' = [pc EXCEPT ![c] = IF cid[c] \in chans THEN "start" ELSE "register"]
-             /\ UNCHANGED <<closedCh, counter, chans, cid, wire, ackq, inflight, got, sentTo, connErr, nsent, result, strayAck>>
+             /\ UNCHANGED <<closedCh, counter, chans, cid, wire, ackq, inflight, got, sentTo, connErr, nsent, result, strayAck, txnr, outw>>
 \* REGFIRST: register, then write the setup packet (the peer will acknowledge it)
 Register(c) == /\ pc[c] = "register"
                /\ IF REGFIRST
                   THEN /\ chans' = chans \cup {cid[c]} /\ pc' = [pc EXCEPT ![c] = "setup"] /\ UNCHANGED wire
                   ELSE /\ wire' = Append(wire, [ch |-> cid[c], kind |-> "ack", val |-> 0])
                        /\ pc' = [pc EXCEPT ![c] = "setup"] /\ UNCHANGED chans
-               /\ UNCHANGED <<closedCh, counter, cid, ackq, inflight, got, sentTo, connErr, nsent, result, strayAck>>
+               /\ UNCHANGED <<closedCh, counter, cid, ackq, inflight, got, sentTo, connErr, nsent, result, strayAck, txnr, outw>>
 Setup(c) == /\ pc[c] = "setup"
             /\ IF REGFIRST
                THEN /\ wire' = Append(wire, [ch |-> cid[c], kind |-> "ack", val |-> 0]) /\ UNCHANGED chans
                ELSE /\ chans' = chans \cup {cid[c]} /\ UNCHANGED wire
             /\ pc' = [pc EXCEPT ![c] = "await"]
-            /\ UNCHANGED <<closedCh, counter, cid, ackq, inflight, got, sentTo, connErr, nsent, result, strayAck>>
+            /\ UNCHANGED <<closedCh, counter, cid, ackq, inflight, got, sentTo, connErr, nsent, result, strayAck, txnr, outw>>
 Await(c) == /\ pc[c] = "await" /\ ackq[cid[c]] > 0
             /\ ackq' = [ackq EXCEPT ![cid[c]] = @ - 1]
             /\ result' = [result EXCEPT ![c] = IF PTRACK THEN "ok" ELSE "error"]
             /\ pc' = [pc EXCEPT ![c] = "done"]
-            /\ UNCHANGED <<closedCh, counter, chans, cid, wire, inflight, got, sentTo, connErr, nsent, strayAck>>
+            /\ UNCHANGED <<closedCh, counter, chans, cid, wire, inflight, got, sentTo, connErr, nsent, strayAck, txnr, outw>>
 
 \* ---- peer
 PeerSend(i) == /\ nsent < MaxPkgs /\ i \in Ids
                /\ wire' = Append(wire, [ch |-> i, kind |-> "pkg", val |-> nsent + 1])
                /\ nsent' = nsent + 1
                /\ sentTo' = [sentTo EXCEPT ![i] = Append(@, nsent + 1)]
-               /\ UNCHANGED <<closedCh, counter, chans, pc, cid, ackq, inflight, got, connErr, result, strayAck>>
+               /\ UNCHANGED <<closedCh, counter, chans, pc, cid, ackq, inflight, got, connErr, result, strayAck, txnr, outw>>
 \* ---- reader goroutine: Conn.ReadFrom routes by header channel
 Route == /\ wire # <<>>
          /\ LET p == Head(wire) IN
@@ -81,19 +87,27 @@ Route == /\ wire # <<>>
             ELSE /\ connErr' = connErr + 1 /\ UNCHANGED <<ackq, inflight>>
                  /\ strayAck' = strayAck + (IF p.kind = "ack" THEN 1 ELSE 0)
          /\ wire' = Tail(wire)
-         /\ UNCHANGED <<closedCh, counter, chans, pc, cid, got, sentTo, nsent, result>>
+         /\ UNCHANGED <<closedCh, counter, chans, pc, cid, got, sentTo, nsent, result, txnr, outw>>
 \* ---- consumer of channel i
 Recv(i) == /\ i \in chans /\ inflight[i] # <<>>
            /\ got' = [got EXCEPT ![i] = Append(@, Head(inflight[i]))]
            /\ inflight' = [inflight EXCEPT ![i] = Tail(@)]
-           /\ UNCHANGED <<closedCh, counter, chans, pc, cid, wire, ackq, sentTo, connErr, nsent, result, strayAck>>
+           /\ UNCHANGED <<closedCh, counter, chans, pc, cid, wire, ackq, sentTo, connErr, nsent, result, strayAck, txnr, outw>>
+
+\* the owner of logical channel i sends one packet (sendPacket stamps channel id and packet number)
+TotalSent == LET F[S \in SUBSET Ids] == IF S = {} THEN 0 ELSE LET x == CHOOSE y \in S : TRUE IN Len(outw[x]) + F[S \ {x}] IN F[Ids]
+SendPkt(i) == /\ i \in chans /\ i # 0 /\ (\E c \in Creators : pc[c] = "done" /\ cid[c] = i) /\ TotalSent < MaxSends
+              /\ LET k == IF CHANNELNR THEN i ELSE -1 IN
+                 /\ outw' = [outw EXCEPT ![i] = Append(@, txnr[k])]
+                 /\ txnr' = [txnr EXCEPT ![k] = (@ + 1) % 256]
+              /\ UNCHANGED <<closedCh, counter, chans, pc, cid, wire, ackq, inflight, got, sentTo, connErr, nsent, result, strayAck>>
 
 \* Channel.Close of a logical channel whose owner is done with it: unregister, drop what is queued
 CloseChan(i) == /\ i \in chans /\ i # 0 /\ \E c \in Creators : pc[c] = "done" /\ cid[c] = i
                 /\ chans' = chans \ {i} /\ closedCh' = closedCh \cup {i}
                 /\ inflight' = [inflight EXCEPT ![i] = <<>>]
-                /\ UNCHANGED <<counter, pc, cid, wire, ackq, got, sentTo, connErr, nsent, result, strayAck>>
-Next == (\E i \in Ids : CloseChan(i)) \/ (\E c \in Creators : ReadId(c) \/ Incr(c) \/ Lookup(c) \/ Register(c) \/ Setup(c) \/ Await(c))
+                /\ UNCHANGED <<counter, pc, cid, wire, ackq, got, sentTo, connErr, nsent, result, strayAck, txnr, outw>>
+Next == (\E i \in Ids : CloseChan(i) \/ SendPkt(i)) \/ (\E c \in Creators : ReadId(c) \/ Incr(c) \/ Lookup(c) \/ Register(c) \/ Setup(c) \/ Await(c))
         \/ (\E i \in Ids : PeerSend(i) \/ Recv(i)) \/ Route
 Spec == Init /\ [][Next]_vars
 
@@ -102,6 +116,8 @@ C12_NoReuseAfterClose == \A i \in closedCh : i \notin chans
 Owners(i) == {c \in Creators : pc[c] \in {"setup", "await", "done"} /\ cid[c] = i}
 \* every acknowledgement reaches the channel it is for
 C12_AckReachesItsChannel == strayAck = 0
+\* the packets of one channel carry consecutive packet numbers
+C12_ConsecutiveNumbers == \A i \in Ids : \A k \in 1..Len(outw[i]) : outw[i][k] = (k - 1) % 256
 C12_DistinctIds == \A i \in Ids : Cardinality(Owners(i)) <= 1 /\ (i = 0 => Owners(i) = {})
 C12_SetupSucceedsOnAck == \A c \in Creators : pc[c] = "done" => result[c] = "ok"
 IsPrefix(a, b) == Len(a) <= Len(b) /\ SubSeq(b, 1, Len(a)) = a
